@@ -218,6 +218,36 @@ TARGETS = [
          fns=[
         ("SimpleValidator", "validate_onchain_tx", "C08", "C08_fn_validate_onchain_tx"),
     ]),
+    # ---- C08 / C09: `impl Wallet for Node` (can_spend, allowlist_contains) and the key-path rule of get_wallet_privkey
+    dict(area="NodeWallet", rel="vls-core/src/node.rs", consts=[], structs=[], any_order=True,
+         error_ctors={"invalid_argument": "invalid-argument"},
+         externals={
+             "len": dict(receiver="DerivationPath", params=["DerivationPath"], ret="usize"),
+             "is_empty": dict(receiver="DerivationPath", params=["DerivationPath"], ret="bool"),
+             # KeyDerivationStyle::get_key_path_len (vls-core/src/signer/derive.rs, translated on its own in area Derive)
+             "get_key_path_len": dict(receiver="KeyDerivationStyle", params=["KeyDerivationStyle"], ret="Option<usize>"),
+             # account xprv -> derive_priv(path).unwrap() -> PrivateKey (cannot fail for an xprv)
+             "account_privkey_at": dict(params=["DerivationPath"], ret="PrivateKey"),
+             "pubkey_of": dict(params=["PrivateKey"], ret="CompressedPublicKey"),
+             # xpub.derive_pub(path): Err on a hardened component
+             "xpub_child": dict(params=["Xpub", "DerivationPath"], ret="Option<CompressedPublicKey>"),
+             # the address constructors (network fixed), and Address::script_pubkey
+             "addr_p2wpkh": dict(params=["CompressedPublicKey"], ret="Address"),
+             "addr_p2shwpkh": dict(params=["CompressedPublicKey"], ret="Address"),
+             "addr_p2pkh": dict(params=["CompressedPublicKey"], ret="Address"),
+             "addr_p2tr": dict(params=["CompressedPublicKey"], ret="Address"),
+             "script_pubkey": dict(receiver="Address", params=["Address"], ret="ScriptBuf"),
+         },
+         normalise={
+             ("Node", "get_wallet_privkey"): ["account_privkey"],
+             ("Node", "get_wallet_pubkey"): ["pubkey_of"],
+             ("Node", "can_spend"): ["addr_p2wpkh", "addr_p2shwpkh", "addr_p2tr_2"],
+             ("Node", "allowlist_contains"): ["get_state", "xpub_child", "addr_p2wpkh", "addr_p2pkh", "addr_p2tr_inline"],
+         },
+         fns=[
+        ("Node", "can_spend", "C08", "C08_fn_can_spend"),
+        ("Node", "allowlist_contains", "C08", "C08_fn_allowlist_contains"),
+    ]),
     dict(area="TxUtilC08", rel="vls-core/src/util/transaction_utils.rs", consts=[], externals={},
          views="pub struct Transaction { pub input: Vec<TxIn> }",
          fns=[
@@ -278,6 +308,28 @@ RULES = {
         "let script_pubkey = funding_script_pubkey(&chan.keys, wallet);",
         "the channel's p2wsh funding script (a function of both funding pubkeys held by `chan.keys` and of the network) as one external"),
     "unknowns_type": (r"let mut unknowns = Vec::new\(\);", "let mut unknowns: Vec<usize> = Vec::new();", "element type made explicit"),
+    # ---- node.rs: impl Wallet for Node
+    "account_privkey": (
+        r"let xkey =\s*self\.get_account_extended_key\(\)\.derive_priv\(&self\.secp_ctx, &derivation_path\)\.unwrap\(\);\s*"
+        r"Ok\(PrivateKey::new\(xkey\.private_key, self\.network\(\)\)\)",
+        "Ok(account_privkey_at(derivation_path))",
+        "the account xprv's child at the path as one external (`derive_priv(..).unwrap()` cannot fail for a private key)"),
+    "pubkey_of": (r"Ok\(CompressedPublicKey\(\s*self\.get_wallet_privkey\(child_path\)\?\.public_key\(&self\.secp_ctx\)\.inner,\s*\)\)",
+                  "Ok(pubkey_of(self.get_wallet_privkey(child_path)?))", "public key of a private key as one external"),
+    "addr_p2wpkh": (r"Address::p2wpkh\(&pubkey, self\.network\(\)\)", "addr_p2wpkh(&pubkey)", "address constructor on the node's network"),
+    "addr_p2shwpkh": (r"Address::p2shwpkh\(&pubkey, self\.network\(\)\)", "addr_p2shwpkh(&pubkey)", "address constructor on the node's network"),
+    "addr_p2pkh": (r"Address::p2pkh\(&pubkey, self\.network\(\)\)", "addr_p2pkh(&pubkey)", "address constructor on the node's network"),
+    "addr_p2tr_2": (
+        r"let untweaked_pubkey = UntweakedPublicKey::from\(pubkey\.0\);\s*(?://[^\n]*\n\s*)*let taproot_addr = Address::p2tr\(&self\.secp_ctx, untweaked_pubkey, None, self\.network\(\)\);",
+        "let taproot_addr = addr_p2tr(&pubkey);", "key-path-only taproot address of the same key as one external"),
+    "addr_p2tr_inline": (
+        r"let untweaked_pubkey = UntweakedPublicKey::from\(pubkey\.0\);\s*if \*script_pubkey\s*== Address::p2tr\(&self\.secp_ctx, untweaked_pubkey, None, self\.network\(\)\)\s*\.script_pubkey\(\)",
+        "if *script_pubkey == addr_p2tr(&pubkey).script_pubkey()", "key-path-only taproot address of the same key as one external"),
+    "get_state": (r"let state = self\.get_state\(\);", "let state = self.state.lock().unwrap();",
+                  "`Node::get_state` is `self.state.lock().unwrap()` (its body); the lock is the identity"),
+    "xpub_child": (
+        r"let pubkey =\s*CompressedPublicKey\(xp\.derive_pub\(&Secp256k1::new\(\), path\)\.unwrap\(\)\.public_key\);",
+        "let pubkey = xpub_child(xp, path).unwrap();", "`derive_pub` (Err on a hardened component) seen as Option; the `unwrap` stays"),
     "parse_offered": (
         r"if let Ok\(\(\s*_revocation_hash,\s*_remote_htlc_pubkey,\s*_local_htlc_pubkey,\s*_payment_hash_vec,\s*\)\) =\s*"
         r"parse_offered_htlc_script\(redeemscript, setup\.is_anchors\(\)\)",
@@ -384,7 +436,7 @@ def unit_for(repo, tg):
     u = Unit(repo, tg["rel"], "VlsModel.Gen.Fn" + tg["area"], tg.get("consts", ()), tg.get("externals", {}),
              tg.get("structs", ()), foreign_structs=tg.get("foreign_structs"), tuple_structs=tg.get("tuple_structs"),
              fn_files=tg.get("fns_from", ()),
-             views=tg.get("views"), error_ctors=tg.get("error_ctors"), compact_guards=bool(tg.get("compact_guards")),
+             views=tg.get("views"), error_ctors=tg.get("error_ctors"), compact_guards=bool(tg.get("compact_guards")), any_order=bool(tg.get("any_order")),
              rewrite=make_rewriter(tg["rel"], tg["normalise"]) if tg.get("normalise") else None)
     u.log_macros = tuple(tg.get("log_macros", ()))     # declared logging-only macros of the file
     return u
